@@ -248,6 +248,32 @@ func CrashSignature(stderr string, exitErr string) (rule, sig, msg string) {
 			}
 			pair := append(a, b...)
 			sort.Strings(pair)
+			// accesses made by harness code itself are a defect of the machinery, not of golua
+			topIsHarness := func(from int) bool {
+				for k := from; k < len(lines); k++ {
+					l := strings.TrimSpace(lines[k])
+					if l == "" {
+						return false
+					}
+					if strings.HasPrefix(l, "vsim/") {
+						return true
+					}
+					if strings.Contains(l, "(") && !strings.HasPrefix(l, "/") {
+						return false
+					}
+				}
+				return false
+			}
+			prev := len(lines)
+			for j := i + 1; j < len(lines); j++ {
+				if strings.HasPrefix(lines[j], "Previous ") {
+					prev = j
+					break
+				}
+			}
+			if topIsHarness(i+2) || topIsHarness(prev+1) {
+				return "HARNESS", "harness-race[" + strings.Join(pair, " | ") + "]", "data race inside the harness: " + tailOf(stderr, 1500)
+			}
 			return "RACE", "race[" + strings.Join(pair, " | ") + "]", "data race: " + strings.Join(pair, " vs ")
 		}
 	}
@@ -876,6 +902,10 @@ func RunCheck(spec *CheckSpec) int {
 		}
 		if k := matchKnown(known, spec.Property, sig); k != nil {
 			knownHit[k.Signature] += g.n
+			continue
+		}
+		if v.Rule == "HARNESS" {
+			res.InfraError = "harness defect: " + sig + " " + v.Message
 			continue
 		}
 		if v.Rule == "HANG" || v.Rule == "ABORT" {
